@@ -350,6 +350,11 @@ where
         return Err(SnapshotLoadError::MachineNotSupported.into());
     }
 
+    // Nothing of the previous execution state (halt, pending prefix, locked paging)
+    // should survive snapshot loading
+    emulator.cpu = Default::default();
+    emulator.controller.unlock_paging();
+
     // ZXST Block Header
     asset.seek(SeekFrom::Start(cursor_pos))?;
     let mut block_header = [0u8; ZXST_BLOCK_HEADER_SIZE];
